@@ -5,20 +5,20 @@
 EXTENDS StrCopy, MemOps, StrXform, StrQuery
 
 Outcomes(e) ==
-  CASE e.fn \in StrCopyFns \ FldFns -> StrCopyOutcomes(e)
+  CASE e.fn \in StrCopyFns -> StrCopyOutcomes(e)
     [] e.fn \in MemOpsFns -> MemOpsOutcomes(e)
     [] e.fn \in StrXformFns -> StrXformOutcomes(e)
     [] e.fn \in StrQueryFns -> StrQueryOutcomes(e)
     [] OTHER -> {}
 
 Deviations(e) ==
-  CASE e.fn \in StrCopyFns \ FldFns -> StrCopyDeviations(e)
+  CASE e.fn \in StrCopyFns -> StrCopyDeviations(e)
     [] e.fn \in MemOpsFns -> MemOpsDeviations(e)
     [] e.fn \in StrXformFns -> StrXformDeviations(e)
     [] e.fn \in StrQueryFns -> StrQueryDeviations(e)
     [] OTHER -> {}
 
-Known(e) == e.fn \in (StrCopyFns \ FldFns) \cup MemOpsFns \cup StrXformFns \cup StrQueryFns
+Known(e) == e.fn \in StrCopyFns \cup MemOpsFns \cup StrXformFns \cup StrQueryFns
 
 (* functional property of the family the function belongs to *)
 Func(fn) == IF fn \in StrQueryFns THEN "C10" ELSE "C06"
@@ -29,6 +29,7 @@ CopyLike(fn) == fn \in StrCopyFns \cup MemCpyFns \cup MemMoveFns \cup {"memccpy_
 NoOpByDoc(e) == \/ (e.fn \in {"strcpy_s", "wcscpy_s"} /\ e.d = e.s)
                 \/ (e.fn \in StpFns /\ e.flags = 1)
                 \/ (e.fn \in MemCpyFns \cup MemMoveFns /\ e.slen = 0)     \* documented: returns EOK at once
+                \/ (e.fn \in FldFns /\ e.slen = 0)                      \* documented: EOK when slen = 0
                 \/ (e.fn \in MemSetFns /\ e.n = 0 /\ e.d # NULLP)   \* null status out-parameter: nothing is attempted (DESIGN 5a.13)
 
 C03_Direct(e) ==
